@@ -62,7 +62,8 @@ ASSUMPTIONS = [
 ]
 
 ROUTES = ['wsgi', 'sb']
-METHODS = ['prims', 'echo', 'inners', 'strict', 'noargs', 'multi']
+METHODS = ['prims', 'echo', 'inners', 'strict', 'noargs', 'multi', 'total',
+           'item2']
 KINDS = ['bitflip', 'drop', 'dup', 'swap', 'zero', 'insert', 'trailing',
          'random', 'empty', 'splice', 'splice', 'lose_block', 'charset',
          'truncate']
@@ -98,7 +99,17 @@ SPLICE_TOKENS = [
     b'\xc0', b'\xc2', b'\xc3', b'\x90', b'\x80', b'\x91\x01', b'\x81\xa1a\x01',
     b'\xa1x', b'\xc4\x01x', b'\x05', b'\xcb\x7f\xf8\x00\x00\x00\x00\x00\x00',
     b'\xd3\x80\x00\x00\x00\x00\x00\x00\x00', b'\xcf\xff\xff\xff\xff\xff\xff\xff\xff',
+    b'\xc4\x02\xff\xfe', b'\xa2\xff\xfe', b'\xd6\xff\x00\x00\x00\x00', b'\xc1',
 ]
+# what a whole element / member can be replaced by when a block is damaged
+BLOCK_TOKENS = [b'', b'<!-- lost -->', b'<?x y?>', b'text', b'<![CDATA[<a/>]]>',
+                b'<x xmlns="urn:other"/>', b'&amp;', b'&#38;', b'<a><b/></a>',
+                b' ', b'\n']
+CTYPES = ['multipart/related; boundary=xyz', 'multipart/related',
+          'multipart/related; boundary="MIME"; type="text/xml"; start="<a>"',
+          'application/xop+xml', 'text/xml; charset', 'text/xml;',
+          'application/octet-stream', '', 'text/plain',
+          'application/x-www-form-urlencoded', 'multipart/form-data; boundary=b']
 
 
 def _configs():
@@ -273,12 +284,20 @@ def _draw_ops(case, data, rng):
             blocks = _blocks(data)
             if blocks:
                 a, b = rng.choice(blocks)
-                ops.append(['drop', a, b - a])
+                if rng.random() < .5:
+                    ops.append(['drop', a, b - a])
+                else:
+                    ops.append(['block', a, b,
+                                rng.randrange(len(BLOCK_TOKENS))])
             else:
                 ops.append(['drop', pos, rng.randint(3, 30)])
         elif kind == 'charset':
-            # the Content-Type header lies about the encoding of the body
-            ops.append(['charset', rng.choice(CHARSETS)])
+            # the Content-Type header lies about the encoding / type of the
+            # body
+            if rng.random() < .5:
+                ops.append(['charset', rng.choice(CHARSETS)])
+            else:
+                ops.append(['ctype', rng.choice(CTYPES)])
         elif kind == 'random':
             ops.append(['random', base64.b16encode(bytes(bytearray(
                 rng.randint(0, 255) for _ in range(rng.randint(1, 40)))))
@@ -324,8 +343,11 @@ def apply_op(data, op):
         return base64.b16decode(op[1])
     if k == 'empty':
         return b''
-    if k == 'charset':
+    if k in ('charset', 'ctype'):
         return data
+    if k == 'block':
+        return data[:op[1]] + BLOCK_TOKENS[op[3] % len(BLOCK_TOKENS)] + \
+                                                            data[op[2]:]
     if k == 'splice':
         tok = SPLICE_TOKENS[op[3] % len(SPLICE_TOKENS)]
         return data[:op[1]] + tok + data[op[2]:]
@@ -381,6 +403,8 @@ def _one(case, uni, ctl, srv, out_prot, req, data, op, seam):
         r = req.with_body(bad)
     if op[0] == 'charset' and r.ctype is not None:
         r.ctype = '%s; charset=%s' % (r.ctype.split(';')[0], op[1])
+    if op[0] == 'ctype' and r.ctype is not None:
+        r.ctype = op[1]
     before = ctl.n_calls()
     del seam.sites[:]
     status = None
